@@ -206,7 +206,8 @@ def execute(case, at):
 
 
 def close(a, b):
-    return abs(a - b) <= 1e-9 * max(1.0, abs(a), abs(b))
+    # (a == b first: an RTO doubled a thousand times is inf on both sides, and inf - inf is nan)
+    return a == b or abs(a - b) <= 1e-9 * max(1.0, abs(a), abs(b))
 
 
 class RefCubic:
